@@ -291,6 +291,7 @@ func stressEpisode(t *tlog, seed int64, ep int) (sig, what string) {
 			}()
 			select {
 			case <-ret:
+				t.log(tline{Ep: ep, E: "sent", B: b}) // Send returned: its spawn lines are all in the log
 			case <-time.After(expectTimeout):
 				fail("Send.Blocks", "Send("+bdata(b)+") did not return")
 			}
